@@ -207,10 +207,18 @@ Lemma upd_other st c s c' : c' <> c -> conns (upd st c s) c' = conns st c'.
 Proof. intros N. simpl. destruct (Nat.eqb_spec c' c); [contradiction|reflexivity]. Qed.
 Lemma active_set_ended s : active (set_ended s) = false.
 Proof. unfold active. simpl. apply andb_false_r. Qed.
+Lemma touch_fixed s t :
+  c_acc (touch s t) = c_acc s /\ c_ended (touch s t) = c_ended s /\ c_open (touch s t) = c_open s /\
+  c_slot (touch s t) = c_slot s.
+Proof.
+  destruct t as [[r|]| |[r|]]; simpl; try destruct (c_inst s); simpl; repeat split; reflexivity.
+Qed.
 Lemma active_serve s t a : active (serve s t a) = active s.
-Proof. destruct t, a; reflexivity. Qed.
+Proof.
+  destruct (touch_fixed s t) as [A [E _]]. unfold active, serve. destruct a; simpl; rewrite A, E; reflexivity.
+Qed.
 Lemma ended_serve s t a : c_ended (serve s t a) = c_ended s.
-Proof. destruct t, a; reflexivity. Qed.
+Proof. destruct (touch_fixed s t) as [_ [E _]]. unfold serve. destruct a; simpl; exact E. Qed.
 Lemma known_in st c : known st c = true <-> In c (dom st).
 Proof.
   unfold known. rewrite existsb_exists. split.
@@ -398,15 +406,22 @@ Proof.
   - intros [x [H E]]. apply Nat.eqb_eq in E. subst. exact H.
   - intros H. exists r. split; [exact H | apply Nat.eqb_refl].
 Qed.
+Lemma nodup_add_res r l : NoDup l -> NoDup (add_res r l).
+Proof.
+  intros H. unfold add_res. destruct (mem r l) eqn:M; [exact H|].
+  constructor; [|exact H]. intros X. apply mem_in in X. congruence.
+Qed.
+Lemma nodup_touch s t : NoDup (c_tracked s) -> NoDup (c_tracked (touch s t)).
+Proof.
+  intros H. destruct t as [[r|]| |[r|]]; simpl; try destruct (c_inst s); simpl; auto using nodup_add_res.
+Qed.
 Lemma good_serve s t a : good s -> good (serve s t a).
 Proof.
   intros [G1 G2]. split.
-  - rewrite active_serve. destruct t, a; exact G1.
-  - assert (T : c_tracked (touch s t) = c_tracked s) by (destruct t; reflexivity).
-    destruct a; simpl; rewrite ?T; try (destruct t; exact G2).
-    + unfold add_res. destruct (mem r (c_tracked s)) eqn:M; [exact G2|].
-      constructor; [|exact G2]. intros X. apply mem_in in X. congruence.
-    + apply NoDup_filter. exact G2.
+  - rewrite active_serve. intros A. destruct (G1 A) as [O S].
+    destruct (touch_fixed s t) as [_ [_ [O' S']]]. unfold serve. destruct a; simpl; rewrite O', S'; auto.
+  - pose proof (nodup_touch s t G2) as T. unfold serve. destruct a; simpl; auto using nodup_add_res.
+    apply NoDup_filter. exact T.
 Qed.
 Lemma good_pre_end s ev : good s -> good (pre_end s ev).
 Proof. intros G. destruct (pre_end_serve s ev) as [->|[t [a ->]]]; [exact G | apply good_serve; exact G]. Qed.
